@@ -3,6 +3,7 @@
 package main
 
 import (
+	"go/types"
 	"encoding/json"
 	"flag"
 	"fmt"
@@ -27,7 +28,35 @@ func main() {
 	writers := flag.String("writers", "", "debug: print the stores to a field spec (comma separated)")
 	atoms := flag.String("atoms", "", "debug: print the normalised condition atoms and lock keys of function specs (comma separated)")
 	mutators := flag.String("mutators", "", "debug: print the mutation sites of function specs (comma separated) using the mutator summary of their package")
+	bounds := flag.String("bounds", "", "debug: run the K-BOUNDS length dataflow on function specs (comma separated), numberenc/binary readers only")
 	flag.Parse()
+	if *bounds != "" {
+		prog, err := an.Load(*repo)
+		if err != nil {
+			fmt.Println(err)
+			os.Exit(2)
+		}
+		readers := map[*types.Func]int64{}
+		for spec, w := range map[string]int64{"lib/numberenc:UnmarshalUint16": 2, "lib/numberenc:UnmarshalUint32": 4, "lib/numberenc:UnmarshalUint64": 8, "lib/numberenc:UnmarshalInt64": 8, "lib/numberenc:UnmarshalFloat64": 8} {
+			if o, ok := prog.Obj(spec).(*types.Func); ok {
+				readers[o] = w
+			}
+		}
+		for _, sp := range strings.Split(*bounds, ",") {
+			src := prog.FuncSpec(sp)
+			if src == nil {
+				fmt.Println("??", sp)
+				continue
+			}
+			f := prog.Fn(src)
+			uses, viols := f.Bounds(an.BoundsCfg{Readers: readers})
+			fmt.Println("==", sp, uses, "accesses")
+			for _, v := range viols {
+				fmt.Printf("   %s: %s needs %s have %s\n", prog.Pos(v.Node.Pos()), v.What, v.Need, v.Have)
+			}
+		}
+		return
+	}
 	if *mutators != "" {
 		prog, err := an.Load(*repo)
 		if err != nil {
